@@ -87,11 +87,17 @@ def gen_leaf(rng, nq, n_entries, classes=None, p_rel=0.40, p_dangling=0.05, reg_
     return c
 
 
+P_EMPTY_SUB = 0.08
+
+
 def gen_prog(rng, nq, depth, maxlen, p_sub=0.18, reps=(1, 1, 2, 2, 3), **kw):
     n = rng.randint(1, maxlen)
     prog = []
     for _ in range(n):
         if depth > 0 and rng.random() < p_sub:
+            if rng.random() < P_EMPTY_SUB:      # an EMPTY sub-circuit: occupies no channel, lists nothing, may still be referred to
+                prog.append({'t': 'sub', 'reps': rng.choice(reps), 'body': []})
+                continue
             prog.append({'t': 'sub', 'reps': rng.choice(reps), 'body': gen_prog(rng, nq, depth - 1, max(1, maxlen // 2), p_sub, reps, **kw)})
         else:
             prog.append(gen_leaf(rng, nq, len(prog), **kw))
